@@ -1,5 +1,6 @@
 //! corrlib — shared machinery of the correspondence harness (one binary crate per property).
 pub mod common;
+pub mod gen;
 pub mod lcov;
 pub mod pipe;
 pub use common::*;
